@@ -225,6 +225,20 @@ func main() {
 	if err != nil {
 		panic(err)
 	}
+	if spec := os.Getenv("VH_DUMPCELLS"); spec != "" {
+		// the generated look-up function, asked for every (state, symbol)
+		var nst, nsy int
+		fmt.Sscanf(spec, "%d,%d", &nst, &nsy)
+		for st := 0; st < nst; st++ {
+			s := &StateSym{Yystate: st}
+			fmt.Printf("CELLS %d", st)
+			for a := 0; a < nsy; a++ {
+				fmt.Printf(" %d", s.Action(a))
+			}
+			fmt.Printf("\n")
+		}
+		return
+	}
 	sc := bufio.NewScanner(f)
 	sc.Buffer(make([]byte, 1<<20), 1<<20)
 	n := 0
